@@ -9,13 +9,15 @@ HORIZON = 16
 
 CARRIERS = ["http://a.com/p", "https://a.com", "a.com/p", "//a.com", "http://youtube.com/redirect", "http://a.com/url",
             "http://www.google.com/url", "http://x.cdn.ampproject.org/c/s/", "http://x.cdn.ampproject.org/v/",
-            "http://bc.marfeelcache.com/amp/", "https://bc.marfeel.com/", "http://a.com/redirect/p"]
+            "http://bc.marfeelcache.com/amp/", "https://bc.marfeel.com/", "http://a.com/redirect/p",
+            "http://[::1]:8080/p", "http://[::1/p", "a]/p"]
 POSITIONS = ["query-first", "query-later", "path", "fragment", "userinfo", "glued-amp", "start", "cache-tail"]
 KEYS = ["url", "u", "l", "q", "next", "redirect", "redirect_to", "target", "link", "goto", "redir", "orig", "URL", "U",
         "xu", "curl", "urls", "u2", "redirect_t", "%75rl", "amp;url"]
 TARGETS = ["http://b.com/x", "https://b.com", "http://", "https://", "b.com/x", "//b.com", "/x", "/", "/?u=/x", "/../..",
            "<self>", "<carrier-path>", "<carrier-rel>", "", "/p?url=/p", "http://a.com/p", "bc.marfeel.com/b.com/x",
-           "BC.Marfeel.com/b.com/x", "https://bc.marfeel.com/b.com/x", "y.cdn.ampproject.org/c/s/b.com/x"]
+           "BC.Marfeel.com/b.com/x", "https://bc.marfeel.com/b.com/x", "y.cdn.ampproject.org/c/s/b.com/x",
+           "http://[b/r?u=/x", "http://b]/r?next=%2Fx"]
 DEPTHS = [1, 2, 3, 4]
 ENCS = ["matching", "raw", "one-more"]
 TRAILS = ["", "&z=1", "#frag", "&u=http://c.com"]
@@ -153,7 +155,25 @@ def evaluate(case):
     return evaluate_url(build(case))
 
 
+PURE_URLS = ["http://a.com/p?url=http%3A%2F%2Fb.com%2Fx", "http://a.com/login?next=/home", "a.com/login?next=/home", "http://youtube.com/redirect?q=b.com%2Fa",
+             "http://x.cdn.ampproject.org/c/s/b.com/x", "http://a.com/p?q=1", "http://a.com&u=/x", "http://a.com/p?u=http%3A%2F%2Fc.com%2Fr%3Furl%3Dhttp%253A%252F%252Fb.com",
+             "https://bc.marfeel.com/b.com/x", "http://a.com/p"]
+
+
+def pure_labels():
+    return [{"mod": "ural", "fn": "infer_redirection", "args": [u], "kw": {"recursive": r}} for u in PURE_URLS for r in (True, False)]
+
+
+def pure_thunk(label):
+    mod = importlib.import_module(label["mod"])
+    f = getattr(mod, label["fn"])
+    args, kw = label.get("args", []), label.get("kw", {})
+    return lambda: core.call(f, *args, **kw)
+
+
 def judge(w):
+    if "history" in w:
+        return core.judge_history(PROP + ".pure", w, pure_thunk)
     if "url" in w:
         return evaluate_url(w["url"])[0]
     return evaluate(w["case"])[0]
@@ -176,6 +196,8 @@ def run(chk):
         "the recursive call is run under a recursion limit of 400 and a 2 s watchdog. distinct_nontrivial = distinct (end, hops)."
     )
     failures, tags = grid.run(chk, GRID, d, evaluate, shrink=(GRID.wit, GRID.wsimplify, fails_fn))
+    chk.rule.append("H2: every ordered pair of %d infer_redirection calls from a reset module state." % len(pure_labels()))
+    core.explore_pairs(chk, PROP + ".pure", [(l, pure_thunk(l)) for l in pure_labels()])
     n = chk.cov["states"]
     chk.add("transitions", n * 3)
     chk.add("evaluations", n)
